@@ -386,9 +386,9 @@ type ReplayFile struct {
 	EventLog []string  `json:"event_log,omitempty"`
 	// History: scenarios to execute before Scenario in the same process. The violation depends on state of
 	// the library that outlives a transport (package-level variables): one scenario alone does not show it.
-	History  []*Scenario `json:"history,omitempty"`
-	Crash    string    `json:"crash,omitempty"` // process-level failure (fatal error / panic in a detached goroutine)
-	Race     bool      `json:"race,omitempty"`  // needs the -race build
+	History []*Scenario `json:"history,omitempty"`
+	Crash   string      `json:"crash,omitempty"` // process-level failure (fatal error / panic in a detached goroutine)
+	Race    bool        `json:"race,omitempty"`  // needs the -race build
 }
 
 func findViolation(jd *Judged, prop, rule, sig string) *Violation {
